@@ -68,9 +68,111 @@ def r1(ctx):
     ctx.exhaustive['C14-R1'] = True
 
 
+def context_model(ctx):
+    """TAPS.position_to_context run by the abstract interpreter against a model reference (a mixed-case sequence; fetching before position 0 fails, fetching past the
+    end is truncated) for every position, every reference base given and every observed base: the context is the upper-cased three bases starting at a reference C, or
+    the reverse complement of the three bases ending at a reference G; the letter is looked up in the methylated table iff the conversion is observed (C>T, G>A), in
+    the unmethylated one iff the unconverted base is observed, and is "." otherwise (also for other reference bases, positions outside the reference, truncated
+    contexts).  (ok, cases, witness) / None.  Cached per run."""
+    if hasattr(ctx, '_context_model'):
+        return ctx._context_model
+    from ..consteval import run_function, Raised, Unfoldable, module_scope, Instance
+    ctx._context_model = None
+    try:
+        env = module_scope(ctx.ix, TAPS)
+        cls = env.get('TAPS')
+        f = cls.method('position_to_context')[0]
+    except Exception:
+        return None
+    seq = 'ACgTTGcaACGGcCAt'
+    comp = {'A': 'T', 'C': 'G', 'G': 'C', 'T': 'A'}
+    mapping = {True: {}, False: {}}
+    for x in itertools.product('ACGT', repeat=2):
+        c3 = 'C' + ''.join(x)
+        mapping[True][c3] = 'M:' + c3
+        mapping[False][c3] = 'u:' + c3
+
+    def hook(ev, call, env_):
+        if isinstance(call.func, ast.Attribute) and call.func.attr == 'fetch' and src(call.func.value) == 'reference':
+            a = [ev.ev(x, env_) for x in call.args]
+            if a[1] < 0 or a[2] < 0:
+                raise Raised('ValueError', 'start out of range')
+            return seq[a[1]:a[2]]
+        return NotImplemented
+    n = 0
+    try:
+        sc = dict(cls.scope)
+        sc['__class__'] = cls
+        me = Instance(cls, {'context_mapping': mapping})
+        for pos in range(0, len(seq)):
+            for ref in 'CGATN':
+                for q in ('A', 'C', 'G', 'T', 'N', 'c', 't', 'a', 'g'):
+                    n += 1
+                    got = run_function(f, [me, 'chr', pos, ref], {'observed_base': q, 'strand': False, 'reference': '<reference>'}, env=sc, call_hook=hook, budget=20000)
+                    Q = q.upper()
+                    if ref == 'C':
+                        c3 = seq[pos:pos + 3].upper()
+                        meth = True if Q == 'T' else False if Q == 'C' else None
+                    elif ref == 'G':
+                        c3 = None if pos - 2 < 0 else ''.join(comp.get(b_, b_) for b_ in reversed(seq[pos - 2:pos + 1].upper()))
+                        meth = None if c3 is None else (True if Q == 'A' else False if Q == 'G' else None)
+                    else:
+                        c3, meth = None, None
+                    want = (c3, '.' if meth is None else mapping[meth].get(c3, '.'))
+                    if tuple(got) != want:
+                        ctx._context_model = (False, n, {'reference (0-based)': seq, 'position': pos, 'reference base given': ref, 'observed base': q, 'returned (context, letter)': tuple(got), 'expected': want})
+                        return ctx._context_model
+    except (Unfoldable, Raised):
+        return None
+    except Exception:
+        return None
+    ctx._context_model = (True, n, None)
+    return ctx._context_model
+
+
+def _context_model_or_structural(ctx, rid, structural):
+    from ..core import Ctx, VIOLATED, UNDECIDED
+    sub = Ctx(ctx.ix, 'C14', ctx.tier)
+    err = None
+    try:
+        structural(sub)
+    except AnalysisError as e_:
+        err = e_
+    except Exception as e_:
+        err = AnalysisError(f'structural reading failed ({type(e_).__name__}: {e_})')
+    for k_, v_ in sub.counters.items():
+        ctx.counters[k_] = (ctx.counters.get(k_, set()) | v_) if isinstance(v_, set) else ctx.counters.get(k_, 0) + v_
+    for k_, v_ in getattr(sub, 'exhaustive', {}).items():
+        ctx.exhaustive[k_] = v_
+    open_ = [o for o in sub.obligations if o.status in (VIOLATED, UNDECIDED) and 'position_to_context' in o.construct]
+    if err is None and not open_:
+        ctx.obligations.extend(sub.obligations)
+        return
+    m = context_model(ctx)
+    if m is None:
+        ctx.obligations.extend(sub.obligations)
+        if err is not None:
+            raise err
+        return
+    ok, n, wit = m
+    f = ctx.fn(TAPS, 'TAPS.position_to_context')
+    ctx.counters['interpreted_cases'] += n
+    if ok:
+        ctx.obligations.extend([o for o in sub.obligations if o not in open_])
+        ctx.emit(rid, True, TAPS, f, f'position_to_context interpreted on {n} (position, reference base, observed base) cases against a model reference: context, polarity and letter are the prescribed ones '
+                 f'(the structural reading did not follow the restructured method)', key='context-model')
+    else:
+        ctx.obligations.extend(sub.obligations)
+        ctx.emit(rid, False, TAPS, f, f'position_to_context on a model reference: {wit}', key='context-model', witness=wit, what='position_to_context: context / letter differ from the reference context and the observed conversion')
+
+
 @rule('C14', 'C14-R2', 'polarity: the methylated (upper-case) table is selected iff the consensus shows the conversion (C>T on a reference C, '
                        'G>A on a reference G), the unmethylated one iff it shows the unconverted base, anything else gives "."')
 def r2(ctx):
+    _context_model_or_structural(ctx, 'C14-R2', _r2_structural)
+
+
+def _r2_structural(ctx):
     f = ctx.fn(TAPS, 'TAPS.position_to_context')
     tr = [t for t in f.body if isinstance(t, ast.Try)]
     if len(tr) != 1:
@@ -126,6 +228,10 @@ def r2(ctx):
 @rule('C14', 'C14-R3', 'the G-strand context window is the reverse-complement mirror of the C-strand window: [p, p+3) <-> [p-2, p+1), '
                        'complemented with an involutive table and reversed')
 def r3(ctx):
+    _context_model_or_structural(ctx, 'C14-R3', _r3_structural)
+
+
+def _r3_structural(ctx):
     f = ctx.fn(TAPS, 'TAPS.position_to_context')
     pos = f.args.args[2].arg
     fetches = {}
